@@ -111,6 +111,15 @@ def check_state(env, mab, policy, hp, ref, tag, kf_pop=None):
             env.observe('%s.ucb[%s]' % (tag, a), out[a])
     elif policy in ('softmax', 'popularity'):
         exp = expected_values(env, policy, hp, ref)
+        if policy == 'popularity':
+            # whatever the history (also in the degenerate all-zero states whose individual shares are not claimed): the
+            # shares handed to the sampler are "normalised to sum to one"
+            dc = [c for c in calls if c[0] == 'dirichlet']
+            if len(dc) == 1 and len(dc[0][1]) == len(arms):
+                tot = 0
+                for x in dc[0][1]:
+                    tot = tot + (x - EPS)
+                env.ob('%s.shares_sum_to_one' % tag, env.eq(tot, 1))
         if exp is None:
             return
         dcalls = [c for c in calls if c[0] == 'dirichlet']
